@@ -297,11 +297,11 @@ theorem iter_inv (C : Consts) (hstep : 0 < C.step) (sizes : Nat → Nat) (s s' :
           simp only [] at h
           have hc0 := g.streams idx (items, c0) hst
           -- consuming one unit of readiness touches nothing the invariant speaks about
-          have hc : CInvG C { c0 with credit := c0.credit - 1 } items := by
+          have hc : CInvG C { c0 with credit := c0.credit - 1, used := c0.used + 1 } items := by
             intro hg
             have := hc0 hg
             exact ⟨this.st.transfer rfl rfl rfl, this.bk.transfer rfl rfl rfl rfl rfl, this.rx, this.cl⟩
-          generalize hcdef : ({ c0 with credit := c0.credit - 1 } : Conn) = c at h hc
+          generalize hcdef : ({ c0 with credit := c0.credit - 1, used := c0.used + 1 } : Conn) = c at h hc
           have hlt : idx < s.streams.length := by
             rcases Nat.lt_or_ge idx s.streams.length with h1 | h1
             · exact h1
